@@ -45,7 +45,13 @@ Inductive case :=
   (* the whole views handler: per view its networks and its records, the transport's remote, the question:
      which view answered with which of ITS records, in order (None: the query went on down the chain) *)
 | CaseViewsFull (views : list (list prefix * list vrec)) (r : remote) (qname : list N) (qtype : N)
-                (answered : option (nat * list nat)).
+                (answered : option (nat * list nat))
+  (* the real default chain with views configured (counting stand-in for the resolver): one query over transport
+     path [path] for a name that was / was not resolved before: which view answered with which records (None:
+     no view did), did the client get a reply, resolver invocations *)
+| CaseChainView (n_entries : N) (ps : list prefix) (views : list (list prefix * list vrec)) (r : remote) (path : N)
+                (qname : list N) (qtype : N) (cached : bool) (answered : option (nat * list nat)) (replied : bool)
+                (resolver_calls : N).
 
 Definition all_ok (ps : list prefix) : bool := forallb prefix_ok ps.
 
@@ -205,6 +211,13 @@ Definition check_case (c : case) : bool :=
   | CaseViewsFull views r qname qtype answered =>
       forallb (fun v => all_ok (fst v)) views &&
       outcome_eqb (views_serve (map (fun v => (new_set (fst v), snd v)) views) r qname qtype) answered
+  | CaseChainView ne ps views r path qname qtype cached answered replied calls =>
+      all_ok ps && forallb (fun v => all_ok (fst v)) views &&
+      match chain_walk handler_order (new_set (acl_effective ne ps)) (map (fun v => (new_set (fst v), snd v)) views) r qname qtype with
+      | CDrop => negb replied && (calls =? 0) && opt_pick_eqb None answered
+      | CView i l => replied && (calls =? 0) && opt_pick_eqb (Some (i, l)) answered
+      | CResolve => replied && opt_pick_eqb None answered && (writer_internal r || (calls =? (if cached then 0 else 1)))
+      end
   end.
 
 Definition spec_case (c : case) : bool :=
@@ -249,4 +262,14 @@ Definition spec_case (c : case) : bool :=
   | CaseViewsFull views r qname qtype answered =>
       opt_pick_eqb (if spec_subquery r then None else
                     match spec_client_ip r with Some a => spec_views_pick views a qname qtype 0 | None => None end) answered
+  | CaseChainView ne ps views r path qname qtype cached answered replied calls =>
+      (* outside the access list: nothing, even when a view contains the source and holds a record; a genuine
+         sub-query is let through and no view answers it; an admitted client is answered by its view without any
+         resolution, or - no view answering - by the cache / exactly one resolution *)
+      if negb (spec_allowed (acl_effective ne ps) r) then negb replied && (calls =? 0) && opt_pick_eqb None answered
+      else if spec_subquery r then replied && opt_pick_eqb None answered
+      else match match spec_client_ip r with Some a => spec_views_pick views a qname qtype 0 | None => None end with
+           | Some p => replied && (calls =? 0) && opt_pick_eqb (Some p) answered
+           | None => replied && opt_pick_eqb None answered && (calls =? (if cached then 0 else 1))
+           end
   end.
